@@ -216,6 +216,32 @@ CHECKS = {
         "revokes access is an open statement (Proofs/OsOpen.v).",
    technique="Coq proof over commit-mask/purge models + option-matrix traces with shadow oracles + access-revoking build",
    design="3/C13"),
+ "C02": dict(
+   text="Machine-checked proof (Coq) over an interleaving model of the cross-thread free protocol (Model/TFree.v: one transition per atomic access of "
+        "mi_free_block_delayed_mt, _mi_page_thread_free_collect, _mi_page_try_use_delayed_free, _mi_heap_delayed_free_partial, heap collect/delete; "
+        "weak-CAS spurious failure is a transition; any number of remote threads and steps): an inductive invariant gives that every block is in "
+        "exactly one place (held by a thread, a page list, the page thread list, a heap delayed list, a pending list, in flight), the Error state "
+        "(a non-atomic access by a thread that does not hold the block / own the page) is unreachable, `used` counts exactly, DELAYED_FREEING is "
+        "exclusive, and malloc only returns blocks nobody holds (C02_no_double_handout). Tie: (S) schedule-lockstep -- the real allocator runs in "
+        "virtual threads under a deterministic scheduler (every atomic operation a scheduling point, spurious CAS failures) and every logged atomic "
+        "access must be a transition of the extracted model with the same abstract old/new value, inv_b evaluated on the synchronised states; plus "
+        "implementation oracles under the scheduler (no overlap with held blocks, byte patterns intact, no crash/livelock).",
+   note="Interleavings are sequentially consistent per atomic location; C11 release/acquire visibility of block->next is not modelled. Huge-page remote "
+        "free is outside the lockstep program. The boolean checker inv_b <-> Prop invariant equivalence is an open statement no theorem depends on.",
+   technique="Coq inductive invariant over a small-step interleaving model + schedule-lockstep replay of the real code + deterministic-scheduler oracles",
+   design="3/C02"),
+ "C08": dict(
+   text="Machine-checked proof (Coq, same interleaving model as C02): flag NO_DELAYED_FREE implies a block of that page is on its heap's delayed or "
+        "pending list or a thread is inside the DELAYED_FREEING window (the invariant documented in types.h); a non-empty page thread list under "
+        "USE_DELAYED_FREE implies such a block exists (tflist_nonempty_flag, corrected form); from every reachable quiescent state the owner's "
+        "delayed_free_all + forced page collect yields empty thread lists, used = live and frees every page without live blocks "
+        "(quiescent_collect_complete, all_freed_no_pages); processing a delayed block of a full page returns it to its size queue. Tie: lockstep "
+        "as in C02, and the scheduler harness scenario in which all blocks are freed by whichever thread gets there first, every owner collects "
+        "and its heap must hold no pages; livelock = step budget exhausted.",
+   note="'Bounded memory' is established structurally (nothing stays behind at quiescence; the every-100th-generic-allocation drain is in the model "
+        "as an operation the owner may start), not as a resident-set measurement.",
+   technique="Coq inductive invariant + quiescence theorem over the interleaving model + schedule-lockstep + deterministic-scheduler quiescence oracle",
+   design="3/C08"),
 }
 NOT_YET = {}
 def main():
